@@ -94,6 +94,17 @@ CHECKS = {
              'round trip are judged by TLC: single complete type, wrapper exactness, fit and equality inside the claim.',
         design_ref='DESIGN.md section 3 (C19)',
         note='Trusts: TLC; signatures enumerated over basic codes y,s,v; NaN / NUL strings / mixed dict keys outside the claim.'),
+    'C15': dict(
+        technique='TLA+ spec Introspect.tla (XML event stream, SAX handler automaton, known-interface cache as a history '
+                  'machine); graph edges/walks replayed on the real classes; recorded histories validated by TLC',
+        text='TLC explores all histories of declare / parse-with-or-without-replacement over 2 interface names (object '
+             'identities tracked) and a wide single-parse space (5544 definitions x register x replace) with the round-trip '
+             'action property; every edge and random walks are executed on real DBusInterface / generateIntrospectionXML / '
+             'getInterfacesFromXML objects and compared (members, signatures, counts, access, reuse by identity, cache); '
+             'proxies on parsed interfaces are probed for the argument counts they accept; random definitions over 16 '
+             'types and longer histories are validated by TLC.',
+        design_ref='DESIGN.md section 3 (C15)',
+        note='Trusts: TLC; complete types are opaque strings here (splitting is C19); standard DBus interfaces filtered.'),
 }
 
 NOT_YET = 'check not built yet (build in progress; see DESIGN.md section 6)'
